@@ -175,6 +175,40 @@ def check_e2e_case(e2e, splitter, combiner, lens):
     }
 
 
+def check_e2e_two_outputs(e2e, splitter, combiner, lens):
+    """the same request on a task with TWO output fields: each field's combined groups hold that field's values"""
+    fs = SP.fields_of(splitter)
+    inputs = {f: H.values_for(f, lens[f]) for f in fs}
+    enum = SP.expand(splitter, lens)
+    groups = SP.partition(splitter, combiner, lens)
+    full = not SP.remaining_fields(splitter, combiner)
+    r = H.run_sequence(e2e, [lambda: H.build_F2(splitter, inputs, combiner=combiner)])[0]
+    if r["exc"] is not None:
+        return None  # rejections / crashes are the single-output domain's business (same State code)
+    fails = []
+    for name, tag in (("o1", "first"), ("o2", "second")):
+        rows = [[tag] + H.job_tuple(fs, inputs, ind) for ind in enum]
+        exp = H.plain([rows[j] for j in groups[0]] if full else [[rows[j] for j in g] for g in groups])
+        got = H.plain(r["fields"].get(name))
+        if got != exp:
+            fails.append(
+                {
+                    "klass": None,
+                    "what": f"F2.split({splitter!r}).combine({combiner}) lengths {lens}: output field {name} differs from the expected partition of ITS values (got {str(got)[:160]}, expected {str(exp)[:160]})",
+                    "case": {"layer": "e2e-two-outputs", "splitter": SP.to_json(splitter), "combiner": list(combiner), "lens": lens, "field": name},
+                }
+            )
+    return fails
+
+
+def _w_e2e2(task):
+    e2e = H.E2E()
+    try:
+        return [(tj, comb, lens, check_e2e_two_outputs(e2e, SP.from_json(tj), comb, lens)) for tj, comb, lens in task]
+    finally:
+        e2e.close()
+
+
 def nontrivial(fs, lens):
     return len(fs) >= 2 and max(lens[f] for f in fs) >= 2
 
@@ -331,6 +365,21 @@ def _run(ctx):
             if f:
                 ctx.fail(f["klass"], f["what"], f["case"], domain=dom_f)
     ph.mark("e2e/lengths-2")
+    dom_m = ctx.domain(
+        "e2e/two-output-fields",
+        bound="the e2e/lengths-2 requests on the same task with TWO output fields (o1, o2 carry a field tag)",
+        rule="one real submission per (tree, combiner); every output field's (nested) list must be the expected partition of that field's values; requests pydra rejects are not counted here; non-trivial = some split field is left uncombined",
+        exhaustive=True,
+    )
+    for part in H.pmap(_w_e2e2, H.chunks(cases, H.NPROCS * 3), serial=not ctx.thorough, chunksize=1):
+        for tj, comb, lens, fails in part:
+            s = SP.from_json(tj)
+            if fails is None:
+                continue
+            dom_m.case((SP.canon(s), tuple(comb)), nontrivial=bool(SP.remaining_fields(s, comb)), sample={"splitter": repr(s), "combiner": comb, "lengths": lens})
+            for f in fails:
+                ctx.fail(f["klass"], f["what"], f["case"], domain=dom_m)
+    ph.mark("e2e/two-output-fields")
 
     # ---- end to end, sampled
     n_e2e = ctx.pick(40, 1500)
@@ -369,6 +418,17 @@ def replay(rec):
     case = rec["case"]
     s = SP.from_json(case["splitter"])
     comb, lens = case["combiner"], case["lens"]
+    if case.get("layer") == "e2e-two-outputs":
+        e2e = H.E2E()
+        try:
+            fails = check_e2e_two_outputs(e2e, SP.from_json(case["splitter"]), case["combiner"], case["lens"]) or []
+        finally:
+            e2e.close()
+        print(f"replay C02: {[f['what'] for f in fails] or 'as expected'}")
+        if fails:
+            print(f"VIOLATION property=C02 replay={rec.get('_path', '')}")
+            return 1
+        return 0
     if case.get("layer") == "e2e":
         e2e = H.E2E()
         try:
